@@ -1370,3 +1370,104 @@ PROPS["C04"] = {
                     "C04-stale-balance); proved: the two counterexamples, multistore restoration by the PrecompileCalled entry, "
                     "balance-view agreement after SyncStateDBWithAccount"],
 }
+
+
+# ------------------------------------------------------------------------------------------------ C08 precompiles
+C08_STATE_CHANGING = {"sendToBank", "sendToEvm", "bankMsgSend", "execute", "instantiate", "executeMulti"}
+
+
+def c08_panic_category(kv, msg):
+    m = msg or ""
+    if "slice_bounds" in m or "slice bounds" in m:
+        return "short-input"
+    if "invalid_denom" in m:
+        return "bankMsgSend-invalid-denom"
+    if "invalid_StringKey" in m:
+        return "sendToEvm-denom-string-key"
+    if kv.get("pc") == "oracle" and ("Read" in m or "out_of_gas" in m or "out of gas" in m):
+        return "oracle-out-of-gas"
+    if not m:
+        # L1 lines carry no message: classify from the call itself
+        ln, cap = int(kv.get("len", "0")), int(kv.get("cap", "0"))
+        if ln < 4:
+            return "short-input"
+        if kv.get("selLen") == "bankMsgSend":
+            return "bankMsgSend-invalid-denom"
+        if kv.get("selLen") == "sendToEvm":
+            return "sendToEvm-denom-string-key"
+        if kv.get("pc") == "oracle":
+            return "oracle-out-of-gas"
+    return "other"
+
+
+def oracle_c08(run, ops, impl):
+    out = []
+    for i, (op, ob) in enumerate(zip(ops, impl)):
+        a = op.split()
+        kv = dict(x.split("=", 1) for x in a[2:] if "=" in x)
+        if a[1] == "run":
+            if ob == "panic":
+                out.append(V("C08:panic:%s" % c08_panic_category(kv, ""), {"line": i + 1, "op": op}))
+            elif ob == "gas-left-exceeds-supplied":
+                out.append(V("C08:gas-left-exceeds-supplied", {"line": i + 1, "op": op}))
+            elif ob == "run" and kv.get("ro") == "1" and kv.get("unpack") == "1" and kv.get("selLen") in C08_STATE_CHANGING:
+                out.append(V("C08:state-changing-method-admitted-under-read-only-flag:%s" % kv.get("selLen"), {"line": i + 1, "op": op}))
+            elif ob == "run" and kv.get("val") == "1" and kv.get("unpack") == "1" and kv.get("pc") != "oracle" \
+                    and kv.get("selLen") not in C08_STATE_CHANGING and kv.get("selLen") != "-":
+                out.append(V("C08:query-admitted-with-value:%s" % kv.get("selLen"), {"line": i + 1, "op": op}))
+            continue
+        if a[1] != "tx":
+            continue
+        f = ob.split()
+        res = f[0]
+        okv = dict(x.split("=", 1) for x in f[1:] if "=" in x)
+        shape, sel = kv.get("shape"), kv.get("sel")
+        changed = okv.get("changed", "-")
+        if res == "panic":
+            out.append(V("C08:panic:%s" % c08_panic_category(kv, okv.get("msg", "")), {"line": i + 1, "op": op, "obs": ob}))
+            continue
+        if res in ("badret", "innerfail") or (res == "vmerr" and shape != "top") or res == "txerr":
+            # the proxy never reverts by construction; the only legitimate failure is the tx running out of gas
+            if not (res == "innerfail" or res == "vmerr"):
+                out.append(V("C08:unexpected-outcome:%s" % res, {"line": i + 1, "op": op, "obs": ob}))
+            continue
+        sub = okv.get("sub")
+        if sub == "0" and changed != "-":
+            out.append(V("C08:state-change-left-behind-by-failed-call", {"line": i + 1, "op": op, "obs": ob}))
+        static = shape in ("static", "static>call", "call>static")
+        if static and changed != "-":
+            where = "nested-plain-call-under-static-frame" if shape == "static>call" else "direct-staticcall"
+            out.append(V("C08:state-change-in-static-context:%s" % where, {"line": i + 1, "op": op, "obs": ob}))
+        if (not static) and sel not in C08_STATE_CHANGING and sel != "-" and kv.get("val") == "0" and changed != "-":
+            out.append(V("C08:query-method-changed-state:%s" % sel, {"line": i + 1, "op": op, "obs": ob}))
+        fwd = int(kv.get("fwd", "0"))
+        used = int(okv.get("used", "0"))
+        if shape not in ("top",) and fwd > 0 and used > fwd + 40000:
+            out.append(V("C08:call-consumed-more-gas-than-forwarded", {"line": i + 1, "op": op, "obs": ob, "forwarded": fwd, "used": used}))
+    return out
+
+
+PROPS["C08"] = {
+    "modules": ["NibiruProofs.C08"],
+    "prefix": "C08_",
+    "runs": [{"model": "precomp", "n_quick": 1500, "n_thorough": 20000, "per_line": True, "nontrivial": r"^(run|readonly|value|unpack)$"},
+             {"model": "precomptx", "n_quick": 700, "n_thorough": 6000, "per_line": True, "no_model": True, "nontrivial": r"sub=1"}],
+    "oracle": oracle_c08,
+    "fact_obligations": ["fact_C08_isMutation_table", "fact_C08_state_changing_guarded", "fact_C08_unguarded_are_queries",
+                         "fact_C08_queries_refuse_value", "fact_C08_methods_unique", "fact_C08_cfg_good", "fact_C08_all_runs_defer_oog"],
+    "rule": "L1 (model vs implementation): evm.RunPrecompiledContract on the real FunToken/Wasm/Oracle precompile objects with generated "
+            "calldata (empty, 1–3 bytes, unknown selectors, every ABI method with well-typed arguments — canonical valid ones and "
+            "semantically invalid ones: bad denoms incl. NUL bytes, bad addresses, amounts up to 2^256-1, repeated fund denoms — then "
+            "truncated / extended / head-word-corrupted encodings), input slices whose capacity exceeds their length (a window into EVM "
+            "memory, optionally followed by a real selector), read-only flag, value, and gas amounts around RequiredGas; the stage that "
+            "rejects the call (or a recovered panic) must equal the model's. L2 (oracle only): the same calldata in signed Ethereum txs "
+            "through the real msg server, reaching the precompile at top level or through a generic proxy contract by CALL / STATICCALL / "
+            "DELEGATECALL / CALLCODE, nested under a static frame, with forwarded gas from 0 to all, with and without value; "
+            "observed: recovered panics, the sub-call's success flag, gas consumed vs forwarded, and which of 13 module stores changed "
+            "(fee bookkeeping of the tx itself excluded); non-trivial = the call got past admission / the sub-call succeeded",
+    "assumptions": ["geth's ABI decoder (Unpack) and the business logic behind the guards are parameters of the model "
+                    "(unpackOk, stage `run`); that *they* never panic rests on the generated inputs only — hence partial",
+                    "the fork passes readOnly=false for a plain CALL nested under a static frame (known finding C08-nested-static); "
+                    "the model's read-only theorems are about the flag the precompile receives"],
+    "trusted": ["C08: the proxy contract (harness/internal/easm) and the store digests used as the state-change detector"],
+}
